@@ -41,6 +41,7 @@ type Env struct {
 	TS      *typesystem.TypeSystem
 	Ref     *rm.State
 	Out     *harness.Outcome
+	Hung    bool // a call never returned: goroutines are left behind on purpose
 	cleanup []func()
 }
 
@@ -124,6 +125,23 @@ func (e *Env) WriteTuplesRaw(ts []rm.Tuple) error {
 }
 
 func (e *Env) Close() {
+	if e.Hung {
+		// goroutines of the hung call are left behind; cleanup may block on them
+		done := make(chan struct{})
+		go func() {
+			for i := len(e.cleanup) - 1; i >= 0; i-- {
+				e.cleanup[i]()
+			}
+			close(done)
+		}()
+		select {
+		case <-done:
+		case <-time.After(30 * time.Second):
+		}
+		e.Finish()
+		simrt.End()
+		return
+	}
 	for i := len(e.cleanup) - 1; i >= 0; i-- {
 		e.cleanup[i]()
 	}
@@ -268,7 +286,9 @@ func (e *Env) JudgeCheck(who string, rq gen.Request, st *rm.State, allowed bool,
 			simrt.Probe("approx_skipped")
 			return
 		}
-		if st.SwallowedBySibling(rq.Ctx, sup.Relevant) {
+		if st.DiffSubtrahendReachesCycle(rq.Obj, rq.Rel) {
+			sig += " diff_subtrahend_reaches_tuple_cycle"
+		} else if st.SwallowedBySibling(rq.Ctx, sup.Relevant) {
 			sig += " condition_error_has_satisfied_sibling"
 		}
 		e.Violate("false_for_undecided", sig, "%s: allowed=false although the answer depends on a condition that cannot be evaluated; the request should fail (%s)", desc, ref)
